@@ -4,7 +4,13 @@ Extracted (every run, from the working tree under test):
   * `cascade`   - the ordered if/elif chain of FortranContainer.__init__ (ast):
                   for each branch the recogniser (regex attribute or literal test)
                   and the extra guard (`blocklevel == 0`, `incontains`, the
-                  MODULE PROCEDURE guard);
+                  MODULE PROCEDURE guard).  Round 5: by role, not by spelling - the loop
+                  is the one that holds the longest chain, the BLOCK counter is whatever
+                  the BLOCK branch increments, the CONTAINS flag whatever the CONTAINS
+                  branch sets, the lower-cased line any name bound to `<line>.lower()`;
+                  the conjuncts of a test come in any order and may have been moved into
+                  a one-expression helper method;
+  * `fileHasCleanup` - does `_cleanup()` of a parsed FortranSourceFile come back (probed);
   * `attrTable` - for every container class, which of the attributes tested with
                   `hasattr(self, ...)` in that chain exist while the class parses
                   its body (probed by parsing a source that contains every kind
@@ -25,7 +31,7 @@ Extracted (every run, from the working tree under test):
                   that it raises, or that it does not come back within 2 s.
   * `patterns`   - every regular expression applied while a source file is read and parsed, as
                   the syntax tree `re` builds for it (see translate/c20rx.py).
-  * `warnSpec`, `warnProbes`, `progressSpec`, `progressProbes`, `rejectionMsg`, `handlerSteps`,
+  * `warnSpec`, `warnProbes`, `progressSpec`, `progressProbes`, `rejectionRules`, `handlerSteps`,
     `emojiSample` - the diagnostic channel (see translate/c20diag.py).
 A construct that cannot be found raises (the check then reports "tie broken").
 """
@@ -98,75 +104,195 @@ end block data
 """
 
 
-def _regex_names(node) -> list[str]:
-    """names X of every `self.X.match/search(...)` call inside `node`"""
-    out = []
-    for n in ast.walk(node):
-        if (isinstance(n, ast.Call) and isinstance(n.func, ast.Attribute) and n.func.attr in ("match", "search")
-                and isinstance(n.func.value, ast.Attribute) and isinstance(n.func.value.value, ast.Name)
-                and n.func.value.value.id == "self"):
-            out.append(n.func.value.attr)
-    return out
+def _chain_len(node) -> int:
+    n = 1
+    while len(node.orelse) == 1 and isinstance(node.orelse[0], ast.If):
+        node = node.orelse[0]
+        n += 1
+    return n
 
 
-def _guard(test) -> str:
-    src = ast.unparse(test)
-    parts = []
-    if "blocklevel == 0" in src:
-        parts.append("block0")
+def _helper_body(sf, name):
+    """`self.<name>(...)` where <name> is a small method of the container class (a condition that was
+    extracted into a helper): the expression it returns, else None"""
+    fn = inspect.getattr_static(sf.FortranContainer, name, None)
+    if isinstance(fn, (staticmethod, classmethod)):
+        fn = fn.__func__
+    if not inspect.isfunction(fn):
+        return None
+    try:
+        body = ast.parse(textwrap.dedent(inspect.getsource(fn))).body[0].body
+    except (OSError, TypeError, SyntaxError):
+        return None
+    body = [n for n in body if not (isinstance(n, ast.Expr) and isinstance(n.value, ast.Constant))]
+    if len(body) == 1 and isinstance(body[0], ast.Return) and body[0].value is not None:
+        return body[0].value
+    return None
+
+
+def _regex_of_call(sf, n):
+    """`self.X.match(...)` / `self.X.search(...)` / `type(self).X.match(...)` / `FortranContainer.X.match(...)`
+    where X is bound to a compiled pattern on the class: the name X, else None"""
+    if not (isinstance(n, ast.Call) and isinstance(n.func, ast.Attribute) and n.func.attr in ("match", "search", "fullmatch")
+            and isinstance(n.func.value, ast.Attribute)):
+        return None
+    x = n.func.value.attr
+    if isinstance(getattr(sf.FortranContainer, x, None), re.Pattern):
+        return x
+    # a pattern compiled per instance (VARIABLE_RE is built in __init__ from the settings): an attribute of
+    # `self` that is not a method of the class
+    if isinstance(n.func.value.value, ast.Name) and n.func.value.value.id == "self" \
+            and not callable(getattr(sf.FortranContainer, x, None)):
+        return x
+    return None
+
+
+class _Names:
+    """the locals of the statement loop the guards talk about, found by what is done with them (so that
+    renaming them changes nothing): the counter of open BLOCK constructs is the name the BLOCK branch
+    increments, the CONTAINS flag is the name the CONTAINS branch sets to True, the lower-cased line is
+    any name bound to `<loop variable>.lower()`"""
+
+    def __init__(self, loop):
+        self.line = loop.target.id if isinstance(loop.target, ast.Name) else None
+        self.lowered = set()
+        for n in ast.walk(loop):
+            if isinstance(n, ast.Assign) and len(n.targets) == 1 and isinstance(n.targets[0], ast.Name) and self.is_lower_call(n.value):
+                self.lowered.add(n.targets[0].id)
+        self.block = None
+        self.contains = None
+
+    def is_lower_call(self, v) -> bool:
+        return (isinstance(v, ast.Call) and isinstance(v.func, ast.Attribute) and v.func.attr == "lower" and not v.args
+                and isinstance(v.func.value, ast.Name) and v.func.value.id == self.line)
+
+    def is_lowered_line(self, v) -> bool:
+        return (isinstance(v, ast.Name) and v.id in self.lowered) or self.is_lower_call(v)
+
+
+def _operands(sf, test, depth=0) -> list:
+    """the conjuncts of a test, helper methods followed"""
     if isinstance(test, ast.BoolOp) and isinstance(test.op, ast.And):
-        for v in test.values[1:]:
-            s = ast.unparse(v)
-            if s == "incontains":
-                parts.append("incontains")
-            elif s == "blocklevel == 0":
-                pass
-            elif "match['module']" in s and "FortranInterface" in s:
-                parts.append("modprocGuard")
-            else:
-                raise ValueError(f"unknown guard {s!r} in {src!r}")
-    if len(parts) > 1:
-        raise ValueError(f"compound guard {src!r}")
-    return parts[0] if parts else "always"
+        out = []
+        for v in test.values:
+            out += _operands(sf, v, depth)
+        return out
+    if (depth < 3 and isinstance(test, ast.Call) and isinstance(test.func, ast.Attribute)
+            and isinstance(test.func.value, ast.Name) and test.func.value.id == "self"):
+        inner = _helper_body(sf, test.func.attr)
+        if inner is not None:
+            return _operands(sf, inner, depth + 1)
+    return [test]
+
+
+def _strip_walrus(v):
+    return v.value if isinstance(v, ast.NamedExpr) else v
+
+
+def _recogniser(sf, names, v):
+    """one conjunct -> recogniser name, or None if it is a guard"""
+    v = _strip_walrus(v)
+    if isinstance(v, ast.Compare) and len(v.ops) == 1 and len(v.comparators) == 1:
+        l, r = v.left, v.comparators[0]
+        if isinstance(v.ops[0], ast.Eq):
+            if isinstance(l, ast.Constant):
+                l, r = r, l
+            if names.is_lowered_line(l) and isinstance(r, ast.Constant) and r.value in ("contains", "sequence"):
+                return r.value
+        if isinstance(v.ops[0], ast.In) and names.is_lowered_line(l) and isinstance(r, (ast.List, ast.Tuple, ast.Set)) \
+                and all(isinstance(e, ast.Constant) for e in r.elts):
+            if sorted(e.value for e in r.elts) == ["private", "protected", "public"]:
+                return "permission"
+            raise ValueError(f"the cascade tests the line against the words {[e.value for e in r.elts]}")
+    x = _regex_of_call(sf, v)
+    if x is not None:
+        return x
+    if isinstance(v, ast.BoolOp) and isinstance(v.op, ast.Or):
+        xs = [_regex_of_call(sf, _strip_walrus(o)) for o in v.values]
+        if all(xs):
+            return "|".join(xs)
+    return None
+
+
+def _guard_of(names, v) -> str:
+    """a conjunct that is not the recogniser -> guard"""
+    if isinstance(v, ast.Compare) and len(v.ops) == 1 and isinstance(v.ops[0], ast.Eq):
+        l, r = v.left, v.comparators[0]
+        if isinstance(l, ast.Constant):
+            l, r = r, l
+        if isinstance(l, ast.Name) and l.id == names.block and isinstance(r, ast.Constant) and r.value == 0 \
+                and not isinstance(r.value, bool):
+            return "block0"
+    if isinstance(v, ast.Name) and v.id == names.contains:
+        return "incontains"
+    subs = [n for n in ast.walk(v) if isinstance(n, ast.Subscript) and isinstance(n.slice, ast.Constant)]
+    if isinstance(v, ast.BoolOp) and isinstance(v.op, ast.Or) and len(v.values) == 2 \
+            and any(isinstance(o, ast.Subscript) and isinstance(o.slice, ast.Constant) and o.slice.value == "module" for o in v.values) \
+            and any(isinstance(o, ast.Call) and isinstance(o.func, ast.Name) and o.func.id == "isinstance" and len(o.args) == 2
+                    and isinstance(o.args[0], ast.Name) and o.args[0].id == "self"
+                    and isinstance(o.args[1], ast.Name) and o.args[1].id == "FortranInterface" for o in v.values) and len(subs) == 1:
+        return "modprocGuard"
+    raise ValueError(f"unknown guard {ast.unparse(v)!r}")
 
 
 def extract_cascade(sf) -> list[tuple[str, str]]:
+    """The ordered if/elif chain of the statement loop: (recogniser, guard) per link.  Tied to what the
+    chain does, not to how it is spelled: the loop is the `for` of `FortranContainer.__init__` that holds
+    the longest chain; locals are identified by their role (`_Names`); the conjuncts of a test may come in
+    any order and may sit in a small helper method (`_operands`)."""
     tree = ast.parse(textwrap.dedent(inspect.getsource(sf.FortranContainer.__init__)))
     fn = tree.body[0]
-    loop = next((n for n in fn.body if isinstance(n, ast.For) and ast.unparse(n.iter) == "source"), None)
-    if loop is None:
-        raise ValueError("`for line in source` loop not found in FortranContainer.__init__")
-    chain = next((n for n in loop.body if isinstance(n, ast.If) and "contains" in ast.unparse(n.test)
-                  and "line_lower" in ast.unparse(n.test)), None)
-    if chain is None:
-        raise ValueError("if/elif cascade not found")
-    out = []
+    best = None
+    for loop in (n for n in ast.walk(fn) if isinstance(n, ast.For)):
+        for st in loop.body:
+            if isinstance(st, ast.If) and (best is None or _chain_len(st) > _chain_len(best[1])):
+                best = (loop, st)
+    if best is None or _chain_len(best[1]) < 10:
+        raise ValueError("the statement loop with its if/elif cascade was not found in FortranContainer.__init__")
+    loop, chain = best
+    names = _Names(loop)
+    links = []
     node = chain
     while True:
-        test = node.test
-        src = ast.unparse(test)
-        names = _regex_names(test)
-        if src == "line_lower == 'contains'":
-            rec = "contains"
-        elif src.startswith("line_lower in ["):
-            rec = "permission"
-        elif src == "line_lower == 'sequence'":
-            rec = "sequence"
-        elif len(names) == 1:
-            rec = names[0]
-        elif names == ["CALL_RE", "SUBCALL_RE"] and isinstance(test, ast.BoolOp) and isinstance(test.op, ast.Or):
-            rec = "CALL_RE|SUBCALL_RE"
-        else:
-            raise ValueError(f"unrecognised cascade test {src!r}")
-        if rec not in RECOG:
-            raise ValueError(f"unknown recogniser {rec!r}")
-        out.append((RECOG[rec], _guard(test)))
+        links.append(node)
         if len(node.orelse) == 1 and isinstance(node.orelse[0], ast.If):
             node = node.orelse[0]
         else:
             if node.orelse:
                 raise ValueError("cascade ends with an else branch")
             break
+    parsed = []
+    for node in links:
+        ops = _operands(sf, node.test)
+        recs = [(i, _recogniser(sf, names, o)) for i, o in enumerate(ops)]
+        recs = [(i, r) for i, r in recs if r is not None]
+        if len(recs) != 1:
+            raise ValueError(f"unrecognised cascade test {ast.unparse(node.test)!r}")
+        parsed.append((node, recs[0][1], [o for i, o in enumerate(ops) if i != recs[0][0]]))
+    # the roles of the locals: what the BLOCK branch increments, what the CONTAINS branch sets
+    for node, rec, _ in parsed:
+        if rec == "BLOCK_RE":
+            incs = [n.target.id for st in node.body for n in ast.walk(st) if isinstance(n, ast.AugAssign)
+                    and isinstance(n.op, ast.Add) and isinstance(n.target, ast.Name)]
+            incs += [n.targets[0].id for st in node.body for n in ast.walk(st) if isinstance(n, ast.Assign)
+                     and len(n.targets) == 1 and isinstance(n.targets[0], ast.Name) and isinstance(n.value, ast.BinOp)
+                     and isinstance(n.value.op, ast.Add) and n.targets[0].id in {m.id for m in ast.walk(n.value) if isinstance(m, ast.Name)}]
+            if len(set(incs)) == 1:
+                names.block = incs[0]
+        if rec == "contains":
+            sets = [n.targets[0].id for st in node.body for n in ast.walk(st) if isinstance(n, ast.Assign)
+                    and len(n.targets) == 1 and isinstance(n.targets[0], ast.Name) and isinstance(n.value, ast.Constant)
+                    and n.value.value is True]
+            if len(set(sets)) == 1:
+                names.contains = sets[0]
+    out = []
+    for node, rec, guards in parsed:
+        if rec not in RECOG:
+            raise ValueError(f"unknown recogniser {rec!r}")
+        gs = [_guard_of(names, g) for g in guards]
+        if len(gs) > 1:
+            raise ValueError(f"compound guard {ast.unparse(node.test)!r}")
+        out.append((RECOG[rec], gs[0] if gs else "always"))
     return out
 
 
@@ -175,7 +301,9 @@ def hasattr_names(sf) -> list[str]:
     for f in (sf.FortranContainer.__init__, sf.FortranContainer._add_procedure_calls):
         tree = ast.parse(textwrap.dedent(inspect.getsource(f)))
         for n in ast.walk(tree):
-            if (isinstance(n, ast.Call) and isinstance(n.func, ast.Name) and n.func.id == "hasattr"
+            # `hasattr(self, "x")`, or the same test spelled `getattr(self, "x", <default>)`
+            if (isinstance(n, ast.Call) and isinstance(n.func, ast.Name)
+                    and (n.func.id == "hasattr" and len(n.args) == 2 or n.func.id == "getattr" and len(n.args) == 3)
                     and isinstance(n.args[0], ast.Name) and n.args[0].id == "self"
                     and isinstance(n.args[1], ast.Constant)):
                 if n.args[1].value not in names:
@@ -225,6 +353,29 @@ def probe_attrs(sf, attrs) -> dict[str, list[str]]:
     if missing:
         raise ValueError(f"probe did not reach containers {missing}")
     return seen
+
+
+def probe_file_cleanup(sf) -> bool:
+    """parse a small valid file, then call `_cleanup()` of the FortranSourceFile object the way the END branch
+    does at file level: True if it returns, False if it raises NotImplementedError (as the code is)"""
+    from ford.settings import ProjectSettings
+
+    old_ns = sf.namelist
+    try:
+        with tempfile.TemporaryDirectory() as d:
+            p = Path(d) / "probe.f90"
+            p.write_text("module m\nend module m\n")
+            with contextlib.redirect_stdout(io.StringIO()):
+                f = sf.FortranSourceFile(str(p), ProjectSettings(preprocess=False, dbg=False))
+                try:
+                    f._cleanup()
+                except NotImplementedError:
+                    return False
+                except Exception as e:  # noqa
+                    raise ValueError(f"FortranSourceFile._cleanup() raises {e!r} on a parsed file") from None
+                return True
+    finally:
+        sf.namelist = old_ns
 
 
 # ---------------------------------------------------------------------------------------
@@ -435,12 +586,9 @@ def generate() -> str:
     interface_like = kinds_of(lambda c: issubclass(c, sf.FortranInterface))
     type_like = kinds_of(lambda c: issubclass(c, sf.FortranType))
     s = ProjectSettings()
-    # END at file level calls FortranSourceFile._cleanup: does the method it resolves to
-    # do anything but raise?  (`fileHasCleanup` = it returns normally)
-    fc_src = textwrap.dedent(inspect.getsource(sf.FortranSourceFile._cleanup))
-    fc_body = ast.parse(fc_src).body[0].body
-    fc_stmts = [n for n in fc_body if not (isinstance(n, ast.Expr) and isinstance(n.value, ast.Constant))]
-    file_cleanup = not (len(fc_stmts) >= 1 and isinstance(fc_stmts[0], ast.Raise))
+    # END at file level calls `_cleanup` of the source-file object: does that call come back?
+    # (`fileHasCleanup` = it returns normally).  Observed on a real file object, not read from the source.
+    file_cleanup = probe_file_cleanup(sf)
     known_attrs = ["attr_dict", "blockdata", "modules", "submodules", "programs", "subroutines", "namelists",
                    "functions", "types", "interfaces", "enums", "boundprocs", "common", "finalprocs",
                    "variables", "uses", "calls"]
